@@ -32,6 +32,13 @@ form, so that read-then-write reproduces them byte for byte.
 import re
 
 SIMPLE = ["INTEGER", "REAL", "NUMBER", "STRING", "BOOLEAN", "LOGICAL", "BINARY"]
+# opt-in kinds (gen_schema(..., extra=True) / table_schema): defined types over defined types, depth 1..3, named D<depth>_<BASE>
+DEPTH_BASES = ["INTEGER", "REAL", "NUMBER", "STRING", "BOOLEAN", "LOGICAL", "BINARY", "ENUM", "AGGI"]
+DEPTH_KIND = re.compile(r"^D([123])_(INTEGER|REAL|NUMBER|STRING|BOOLEAN|LOGICAL|BINARY|ENUM|AGGI)$")
+DEPTH_KINDS = [f"D{d}_{b}" for d in (1, 2, 3) for b in DEPTH_BASES]
+# selects whose chosen member carries entity references inside a typed value, nested and renamed selects
+SELECT_EXTRA = ["SELECT_L", "SELECT_N", "SELECT_R", "AGG_SELL"]
+EXTRA_KINDS = DEPTH_KINDS + SELECT_EXTRA
 
 
 class Attr:
@@ -43,6 +50,9 @@ class Attr:
         k = self.kind
         if k in SIMPLE:
             return k
+        m = DEPTH_KIND.match(k)
+        if m:
+            return "AGGREGATE" if m.group(2) == "AGGI" else m.group(2)
         if k in ("DEF_REAL", ):
             return "REAL"
         if k in ("DEF_INT", ):
@@ -55,12 +65,30 @@ class Attr:
             return "SELECT"
         return "AGGREGATE"
 
+    @property
+    def depth(self):
+        """number of defined types between the attribute and the underlying simple/enumeration/aggregate type"""
+        m = DEPTH_KIND.match(self.kind)
+        if m:
+            return int(m.group(1))
+        return 1 if self.kind in ("DEF_REAL", "DEF_INT", "ENUM") else 0
+
+    @property
+    def type_ref(self):
+        """is `STEPattribute::Type()` REFERENCE_TYPE?  True for a defined type declared on another defined type
+        (`NonRefType()` then differs from `Type()`); also for a renamed select"""
+        return self.depth >= 2 or self.kind == "SELECT_R"
+
     def express_type(self):
         k = self.kind
+        m = DEPTH_KIND.match(k)
+        if m:
+            return f"d{m.group(1)}_{m.group(2).lower()}"
         t = {"DEF_REAL": "len_t", "DEF_INT": "cnt_t", "ENUM": "colour_t", "SELECT_E": "sel_e", "SELECT_T": "sel_t",
              "SELECT_M": "sel_m", "AGG_INT": "LIST [0:?] OF INTEGER", "AGG_REAL": "SET [0:?] OF REAL",
              "AGG_STR": "LIST [0:?] OF STRING", "AGG_SEL": "LIST [0:?] OF sel_m", "AGG_SELE": "SET [0:?] OF sel_e",
-             "AGG_AGG": "LIST [0:?] OF LIST [0:?] OF INTEGER", "BINARY": "BINARY"}.get(k)
+             "AGG_AGG": "LIST [0:?] OF LIST [0:?] OF INTEGER", "BINARY": "BINARY",
+             "SELECT_L": "sel_l", "SELECT_N": "sel_out", "SELECT_R": "sel_r", "AGG_SELL": "LIST [0:?] OF sel_l"}.get(k)
         if t:
             return t
         if k == "ENTITY":
@@ -81,9 +109,10 @@ class Entity:
 
 
 class Schema:
-    def __init__(self, name, entities, targets):
+    def __init__(self, name, entities, targets, extra=False):
         self.name, self.entities, self.targets = name, entities, targets
         self.by_name = {e.name: e for e in entities}
+        self.extra = extra or any(a.kind in EXTRA_KINDS for e in entities for a in e.attrs)
 
     def subtypes(self, name):
         return [e.name for e in self.entities if e.supertype == name]
@@ -110,6 +139,19 @@ class Schema:
                f"TYPE sel_e = SELECT ({', '.join(t[:2])}); END_TYPE;",
                "TYPE sel_t = SELECT (len_t, cnt_t); END_TYPE;",
                f"TYPE sel_m = SELECT ({t[0]}, len_t); END_TYPE;", ""]
+        if self.extra:
+            under = {"INTEGER": "INTEGER", "REAL": "REAL", "NUMBER": "NUMBER", "STRING": "STRING", "BOOLEAN": "BOOLEAN",
+                     "LOGICAL": "LOGICAL", "BINARY": "BINARY", "ENUM": "ENUMERATION OF (red, green, blue)",
+                     "AGGI": "LIST [0:?] OF INTEGER"}
+            for b in DEPTH_BASES:
+                out.append(f"TYPE d1_{b.lower()} = {under[b]}; END_TYPE;")
+                out.append(f"TYPE d2_{b.lower()} = d1_{b.lower()}; END_TYPE;")
+                out.append(f"TYPE d3_{b.lower()} = d2_{b.lower()}; END_TYPE;")
+            out += [f"TYPE ent_list = LIST [1:?] OF {t[0]}; END_TYPE;",
+                    f"TYPE sel_l = SELECT (ent_list, len_t, {t[1]}); END_TYPE;",
+                    "TYPE sel_in = SELECT (ent_list, len_t); END_TYPE;",
+                    f"TYPE sel_out = SELECT (sel_in, {t[1]}); END_TYPE;",
+                    "TYPE sel_r = sel_e; END_TYPE;", ""]
         for e in self.entities:
             subs = self.subtypes(e.name)
             line = f"ENTITY {e.name}"
@@ -152,10 +194,10 @@ KIND_POOL = (SIMPLE + ["DEF_REAL", "DEF_INT", "ENUM", "ENTITY", "ENTITY", "SELEC
 
 
 def gen_schema(rng, name="vs", n_entities=6, max_attrs=4, kinds=None, p_optional=0.4, with_complex=True,
-               cover_all_kinds=False):
+               cover_all_kinds=False, extra=False):
     """A schema with 2 reference-target leaf entities (t0, t1), a ONEOF chain, free entities and (optionally) one
     ANDOR family (cx_root with members cx_a, cx_b, cx_c).  `kinds` restricts the attribute shapes."""
-    kinds = list(kinds or KIND_POOL)
+    kinds = list(kinds or (list(KIND_POOL) + (list(EXTRA_KINDS) if extra else [])))
     cnt = [0]
 
     def attrs(n, allow_req_ref=True, force=None):
@@ -198,7 +240,33 @@ def gen_schema(rng, name="vs", n_entities=6, max_attrs=4, kinds=None, p_optional
         ents.append(Entity("cx_root", None, attrs(rng.randint(1, 2)), andor_root=True))
         for m in ("cx_a", "cx_b", "cx_c"):
             ents.append(Entity(m, "cx_root", attrs(rng.randint(1, 3)), andor_member=True))
-    return Schema(name, ents, ["t0", "t1"])
+    return Schema(name, ents, ["t0", "t1"], extra)
+
+
+def table_schema(name="tab"):
+    """deterministic schema for decision tables: one entity per base kind with an attribute for every defined-type
+    depth 0..3 x OPTIONAL/required, plus one entity per remaining attribute shape (both optionalities)"""
+    t0 = Entity("t0", None, [Attr("t0_i", "INTEGER", False), Attr("t0_peer", "ENTITY", True, "t1"), Attr("t0_s", "STRING", True)])
+    t1 = Entity("t1", None, [Attr("t1_r", "REAL", False), Attr("t1_peers", "AGG_ENT", True, "t0")])
+    ents = [t0, t1]
+    depth0 = {"ENUM": None, "AGGI": "AGG_INT"}
+    for b in DEPTH_BASES:
+        attrs = []
+        for d in range(4):
+            k = (depth0.get(b, b) if d == 0 else f"D{d}_{b}")
+            if k is None:
+                continue
+            for opt in (False, True):
+                attrs.append(Attr(f"{b.lower()}_d{d}_{'opt' if opt else 'req'}", k, opt))
+        ents.append(Entity(f"k_{b.lower()}", None, attrs))
+    rest = ["ENTITY", "SELECT_E", "SELECT_T", "SELECT_M", "SELECT_L", "SELECT_N", "SELECT_R", "AGG_ENT", "AGG_SEL", "AGG_SELL", "AGG_AGG"]
+    for i in range(0, len(rest), 4):
+        attrs = []
+        for k in rest[i:i + 4]:
+            for opt in (False, True):
+                attrs.append(Attr(f"{k.lower()}_{'opt' if opt else 'req'}", k, opt, "t0" if k in ("ENTITY", "AGG_ENT") else None))
+        ents.append(Entity(f"k_other{i // 4}", None, attrs))
+    return Schema(name, ents, ["t0", "t1"], True)
 
 
 # ------------------------------------------------------------------ values
@@ -220,6 +288,29 @@ def gen_value(rng, attr, schema, pool):
     def aggr(f, lo=0, hi=3):
         return ("aggr", [f() for _ in range(rng.randint(lo, hi))])
 
+    dm = DEPTH_KIND.match(k)
+    if dm:
+        b = dm.group(2)
+        if b == "AGGI":
+            return aggr(lambda: ("tok", rng.choice(INTS)))
+        if b == "ENUM":
+            return ("tok", rng.choice(ENUMS))
+        k = b
+    if k == "SELECT_R":
+        return ref(rng.choice(schema.targets[:2]))
+    if k in ("SELECT_L", "SELECT_N", "AGG_SELL"):
+        def one(nested):
+            c = sorted({i for n, ids in pool.items() if schema.is_a(n, schema.targets[0]) for i in ids})
+            alts = [("typed", "LEN_T", ("tok", rng.choice(REALS)))]
+            if c:
+                alts += [("typed", "ENT_LIST", ("aggr", [("ref", rng.choice(c)) for _ in range(rng.randint(1, 3))]))] * 2
+            r1 = ref(schema.targets[1])
+            if r1:
+                alts.append(r1)
+            return rng.choice(alts)
+        if k == "AGG_SELL":
+            return ("aggr", [one(False) for _ in range(rng.randint(0, 3))])
+        return one(k == "SELECT_N")
     if k in ("INTEGER", "DEF_INT"):
         return ("tok", rng.choice(INTS))
     if k in ("REAL", "DEF_REAL"):
